@@ -6,6 +6,15 @@ theorem compares a regenerated skeleton (normalised statement text, nesting as `
 numbers, long statements wrapped with `\\ ` continuations) with the one the model mirrors; a
 change of a guard, of an order or of a returned error breaks the build of `Props.C20` until the model has been looked at again.
 
+**Local variables are placeholders.**  Every identifier that resolves (by scope, go/parser's
+object resolution) to something declared inside the function's body — `:=`, `var`, `range`,
+parameters of function literals — is printed as `‹k›`, `k` = order of first appearance in the
+fact; receivers, parameters (`ctx`, `node`, `r`, …), fields, methods, callees and package-level
+names keep their names.  Renaming a local (`cachedBytes` → `fromCache`) therefore leaves every
+fact as it is, while moving, adding, dropping or changing a statement does not.  Reading aid for
+`skeleton`: ‹0› cache node, ‹1› now, ‹2› timestamp, ‹3› expiry, ‹4› cacheValid, ‹5› cacheFound,
+‹6› cached bytes, ‹7› err, ‹8› downloaded bytes, ‹9› checksum, ‹10› prompt.
+
 The comparisons are closed by `rfl` (kernel comparison of string literals, 0.3 s) rather than
 `decide` (same statement, 15 s through `String.decEq`).
 
@@ -19,152 +28,153 @@ open TaskModel
 the fallback after a failed fetch (`fetch`, repaired rule: `cacheFound` alone), the prompt, the
 three cache writes in the order checksum, timestamp, content (`written`). -/
 theorem remote_skeleton_ok : Gen.Remote.skeleton = [
-    "cache := NewCacheNode(node, r.tempDir)",
-    "now := time.Now().UTC()",
-    "timestamp := cache.ReadTimestamp()",
-    "expiry := timestamp.Add(r.cacheExpiryDuration)",
-    "cacheValid := now.Before(expiry)",
-    "var cacheFound bool",
-    "cachedBytes, err := cache.Read()",
+    "‹0› := NewCacheNode(node, r.tempDir)",
+    "‹1› := time.Now().UTC()",
+    "‹2› := ‹0›.ReadTimestamp()",
+    "‹3› := ‹2›.Add(r.cacheExpiryDuration)",
+    "‹4› := ‹1›.Before(‹3›)",
+    "var ‹5› bool",
+    "‹6›, ‹7› := ‹0›.Read()",
     "switch",
-    "case errors.Is(err, os.ErrNotExist):",
+    "case errors.Is(‹7›, os.ErrNotExist):",
     "| if r.offline",
     "| | return nil, &errors.TaskfileCacheNotFoundError{ URI: node.Location(), }",
-    "case !cacheValid:",
-    "| cacheFound = true",
+    "case !‹4›:",
+    "| ‹5› = true",
     "| if r.offline",
-    "| | return cachedBytes, nil",
-    "case err != nil:",
-    "| return nil, err",
+    "| | return ‹6›, nil",
+    "case ‹7› != nil:",
+    "| return nil, ‹7›",
     "default:",
     "| if !r.download",
-    "| | return cachedBytes, nil",
-    "| cacheFound = true",
-    "downloadedBytes, err := node.ReadContext(ctx)",
-    "if err != nil",
-    "| if cacheFound",
-    "| | if cacheValid",
+    "| | return ‹6›, nil",
+    "| ‹5› = true",
+    "‹8›, ‹7› := node.ReadContext(ctx)",
+    "if ‹7› != nil",
+    "| if ‹5›",
+    "| | if ‹4›",
     "| | else",
-    "| | return cachedBytes, nil",
-    "| return nil, err",
-    "checksum := checksum(downloadedBytes)",
-    "prompt := cache.ChecksumPrompt(checksum)",
-    "if prompt != \"\"",
-    "| if err := func() error { r.promptMutex.Lock() defer r.promptMutex.Unlock() return",
-    "\\ r.promptf(prompt, node.Location()) }(); err != nil",
+    "| | return ‹6›, nil",
+    "| return nil, ‹7›",
+    "‹9› := checksum(‹8›)",
+    "‹10› := ‹0›.ChecksumPrompt(‹9›)",
+    "if ‹10› != \"\"",
+    "| if ‹11› := func() error { r.promptMutex.Lock() defer r.promptMutex.Unlock() return",
+    "\\ r.promptf(‹10›, node.Location()) }(); ‹11› != nil",
     "| | return nil, &errors.TaskfileNotTrustedError{URI: node.Location()}",
-    "if err := cache.WriteChecksum(checksum); err != nil",
-    "| return nil, err",
-    "if err := cache.WriteTimestamp(now); err != nil",
-    "| return nil, err",
-    "if err = cache.Write(downloadedBytes); err != nil",
-    "| return nil, err",
-    "return downloadedBytes, nil"] := by rfl
+    "if ‹12› := ‹0›.WriteChecksum(‹9›); ‹12› != nil",
+    "| return nil, ‹12›",
+    "if ‹13› := ‹0›.WriteTimestamp(‹1›); ‹13› != nil",
+    "| return nil, ‹13›",
+    "if ‹7› = ‹0›.Write(‹8›); ‹7› != nil",
+    "| return nil, ‹7›",
+    "return ‹8›, nil"] := by rfl
 
 /-- every `RemoteNode` goes through `readRemoteNodeContent` -/
 theorem remote_readNodeContent_ok : Gen.Remote.readNodeContent = [
-    "if node, isRemote := node.(RemoteNode); isRemote",
-    "| return r.readRemoteNodeContent(ctx, node)",
+    "if ‹0›, ‹1› := node.(RemoteNode); ‹1›",
+    "| return r.readRemoteNodeContent(ctx, ‹0›)",
     "return node.Read()"] := by rfl
 
 /-- `needsPrompt`: no stored checksum, or a different one -/
 theorem remote_checksumPrompt_ok : Gen.Remote.checksumPrompt = [
-    "cachedChecksum := node.ReadChecksum()",
+    "‹0› := node.ReadChecksum()",
     "switch",
-    "case cachedChecksum == \"\":",
+    "case ‹0› == \"\":",
     "| return taskfileUntrustedPrompt",
-    "case cachedChecksum != checksum:",
+    "case ‹0› != checksum:",
     "| return taskfileChangedPrompt",
     "default:",
     "| return \"\""] := by rfl
 
 /-- a missing checksum file reads as the empty string (`Entry.sum = none`) -/
 theorem remote_readChecksum_ok : Gen.Remote.readChecksum = [
-    "b, _ := os.ReadFile(node.checksumPath())",
-    "return string(b)"] := by rfl
+    "‹0›, ‹1› := os.ReadFile(node.checksumPath())",
+    "return string(‹0›)"] := by rfl
 
 /-- a missing or unparsable timestamp is the zero time (`cacheValid … = false`) -/
 theorem remote_readTimestamp_ok : Gen.Remote.readTimestamp = [
-    "b, err := os.ReadFile(node.timestampPath())",
-    "if err != nil",
+    "‹0›, ‹1› := os.ReadFile(node.timestampPath())",
+    "if ‹1› != nil",
     "| return time.Time{}.UTC()",
-    "timestamp, err := time.Parse(time.RFC3339, string(b))",
-    "if err != nil",
+    "‹2›, ‹1› := time.Parse(time.RFC3339, string(‹0›))",
+    "if ‹1› != nil",
     "| return time.Time{}.UTC()",
-    "return timestamp.UTC()"] := by rfl
+    "return ‹2›.UTC()"] := by rfl
 
 /-- `gate`: 105 when the node is created -/
 theorem remote_newHTTPNode_ok : Gen.Remote.newHTTPNode = [
-    "base := NewBaseNode(dir, opts...)",
-    "url, err := url.Parse(entrypoint)",
-    "if err != nil",
-    "| return nil, err",
-    "if url.Scheme == \"http\" && !insecure",
+    "‹0› := NewBaseNode(dir, opts...)",
+    "‹1›, ‹2› := url.Parse(entrypoint)",
+    "if ‹2› != nil",
+    "| return nil, ‹2›",
+    "if ‹1›.Scheme == \"http\" && !insecure",
     "| return nil, &errors.TaskfileNotSecureError{URI: entrypoint}",
-    "return &HTTPNode{ BaseNode: base, URL: url, entrypoint: entrypoint, }, nil"] := by rfl
+    "return &HTTPNode{ BaseNode: ‹0›, URL: ‹1›, entrypoint: entrypoint, }, nil"] := by rfl
 
 /-- `Fail.code`: which failure of the fetch carries which error; a dead context passes through unwrapped -/
 theorem remote_httpReadContext_ok : Gen.Remote.httpReadContext = [
-    "url, err := RemoteExists(ctx, node.URL)",
-    "if err != nil",
-    "| return nil, err",
-    "node.URL = url",
-    "req, err := http.NewRequest(\"GET\", node.URL.String(), nil)",
-    "if err != nil",
+    "‹0›, ‹1› := RemoteExists(ctx, node.URL)",
+    "if ‹1› != nil",
+    "| return nil, ‹1›",
+    "node.URL = ‹0›",
+    "‹2›, ‹1› := http.NewRequest(\"GET\", node.URL.String(), nil)",
+    "if ‹1› != nil",
     "| return nil, errors.TaskfileFetchFailedError{URI: node.URL.String()}",
-    "resp, err := http.DefaultClient.Do(req.WithContext(ctx))",
-    "if err != nil",
+    "‹3›, ‹1› := http.DefaultClient.Do(‹2›.WithContext(ctx))",
+    "if ‹1› != nil",
     "| if ctx.Err() != nil",
-    "| | return nil, err",
+    "| | return nil, ‹1›",
     "| return nil, errors.TaskfileFetchFailedError{URI: node.URL.String()}",
-    "defer resp.Body.Close()",
-    "if resp.StatusCode != http.StatusOK",
+    "defer ‹3›.Body.Close()",
+    "if ‹3›.StatusCode != http.StatusOK",
     "| return nil, errors.TaskfileFetchFailedError{ URI: node.URL.String(), HTTPStatusCode:",
-    "\\ resp.StatusCode, }",
-    "b, err := io.ReadAll(resp.Body)",
-    "if err != nil",
-    "| return nil, err",
-    "return b, nil"] := by rfl
+    "\\ ‹3›.StatusCode, }",
+    "‹4›, ‹1› := io.ReadAll(‹3›.Body)",
+    "if ‹1› != nil",
+    "| return nil, ‹1›",
+    "return ‹4›, nil"] := by rfl
 
 /-- `gate`: the experiment switch is tested after the node was made and *replaces* the
 constructor's error (a failed `NewHTTPNode` leaves a typed-nil `*HTTPNode` in `node`, which passes
 `node.(RemoteNode)`): without the experiment the exit code is 1, not 105 -/
 theorem remote_newNode_ok : Gen.Remote.newNode = [
-    "var node Node",
-    "var err error",
-    "scheme, err := getScheme(entrypoint)",
-    "if err != nil",
-    "| return nil, err",
-    "switch scheme",
+    "var ‹0› Node",
+    "var ‹1› error",
+    "‹2›, ‹1› := getScheme(entrypoint)",
+    "if ‹1› != nil",
+    "| return nil, ‹1›",
+    "switch ‹2›",
     "case \"git\":",
-    "| node, err = NewGitNode(entrypoint, dir, insecure, opts...)",
+    "| ‹0›, ‹1› = NewGitNode(entrypoint, dir, insecure, opts...)",
     "case \"http\", \"https\":",
-    "| node, err = NewHTTPNode(entrypoint, dir, insecure, opts...)",
+    "| ‹0›, ‹1› = NewHTTPNode(entrypoint, dir, insecure, opts...)",
     "default:",
-    "| node, err = NewFileNode(entrypoint, dir, opts...)",
-    "if _, isRemote := node.(RemoteNode); isRemote && !experiments.RemoteTaskfiles.Enabled()",
+    "| ‹0›, ‹1› = NewFileNode(entrypoint, dir, opts...)",
+    "if ‹3›, ‹4› := ‹0›.(RemoteNode); ‹4› && !experiments.RemoteTaskfiles.Enabled()",
     "| return nil, errors.New(\"task: Remote taskfiles are not enabled. You can read more about this",
     "\\ experiment and how to enable it at https://taskfile.dev/experiments/remote-taskfiles\")",
-    "return node, err"] := by rfl
+    "return ‹0›, ‹1›"] := by rfl
 
 /-- which flag reaches which reader option; one context with `--timeout` around the whole read; 108 -/
 theorem remote_readTaskfile_ok : Gen.Remote.readTaskfile = [
-    "ctx, cf := context.WithTimeout(context.Background(), e.Timeout)",
-    "defer cf()",
-    "debugFunc := func(s string) { e.Logger.VerboseOutf(logger.Magenta, s) }",
-    "promptFunc := func(s string) error { return e.Logger.Prompt(logger.Yellow, s, \"n\", \"y\", \"yes\") }",
-    "reader := taskfile.NewReader( taskfile.WithInsecure(e.Insecure),",
+    "‹0›, ‹1› := context.WithTimeout(context.Background(), e.Timeout)",
+    "defer ‹1›()",
+    "‹2› := func(‹3› string) { e.Logger.VerboseOutf(logger.Magenta, ‹3›) }",
+    "‹4› := func(‹5› string) error { return e.Logger.Prompt(logger.Yellow, ‹5›, \"n\", \"y\",",
+    "\\ \"yes\") }",
+    "‹6› := taskfile.NewReader( taskfile.WithInsecure(e.Insecure),",
     "\\ taskfile.WithDownload(e.Download), taskfile.WithOffline(e.Offline),",
     "\\ taskfile.WithTempDir(e.TempDir.Remote), taskfi",
-    "\\ le.WithCacheExpiryDuration(e.CacheExpiryDuration), taskfile.WithDebugFunc(debugFunc),",
-    "\\ taskfile.WithPromptFunc(promptFunc), )",
-    "graph, err := reader.Read(ctx, node)",
-    "if err != nil",
-    "| if errors.Is(err, context.DeadlineExceeded)",
+    "\\ le.WithCacheExpiryDuration(e.CacheExpiryDuration), taskfile.WithDebugFunc(‹2›),",
+    "\\ taskfile.WithPromptFunc(‹4›), )",
+    "‹7›, ‹8› := ‹6›.Read(‹0›, node)",
+    "if ‹8› != nil",
+    "| if errors.Is(‹8›, context.DeadlineExceeded)",
     "| | return &errors.TaskfileNetworkTimeoutError{URI: node.Location(), Timeout: e.Timeout}",
-    "| return err",
-    "if e.Taskfile, err = graph.Merge(); err != nil",
-    "| return err",
+    "| return ‹8›",
+    "if e.Taskfile, ‹8› = ‹7›.Merge(); ‹8› != nil",
+    "| return ‹8›",
     "return nil"] := by rfl
 
 /-- `approves`: `--yes` first, then the terminal test, then the answer (`y`/`yes`) -/
@@ -178,12 +188,12 @@ theorem remote_prompt_ok : Gen.Remote.prompt = [
     "| return errors.New(\"no continue values provided\")",
     "l.Outf(color, \"%s [%s/%s]: \", prompt, strings.ToLower(continueValues[0]),",
     "\\ strings.ToUpper(defaultValue))",
-    "reader := bufio.NewReader(l.Stdin)",
-    "input, err := reader.ReadString('\\n')",
-    "if err != nil",
-    "| return err",
-    "input = strings.TrimSpace(strings.ToLower(input))",
-    "if !slices.Contains(continueValues, input)",
+    "‹0› := bufio.NewReader(l.Stdin)",
+    "‹1›, ‹2› := ‹0›.ReadString('\\n')",
+    "if ‹2› != nil",
+    "| return ‹2›",
+    "‹1› = strings.TrimSpace(strings.ToLower(‹1›))",
+    "if !slices.Contains(continueValues, ‹1›)",
     "| return ErrPromptCancelled",
     "return nil"] := by rfl
 
@@ -194,26 +204,28 @@ theorem remote_validateRemote_ok : Gen.Remote.validateRemote = [
 
 /-- `--clear-cache` acts after `Setup` (which reads the remote Taskfile) succeeded -/
 theorem remote_runClearCache_ok : Gen.Remote.runClearCache = [
-    "if err := e.Setup(); err != nil",
+    "if ‹0› := ‹1›.Setup(); ‹0› != nil",
     "if flags.ClearCache",
-    "| cachePath := filepath.Join(e.TempDir.Remote, \"remote\")",
-    "| return os.RemoveAll(cachePath)"] := by rfl
+    "| ‹2› := filepath.Join(‹1›.TempDir.Remote, \"remote\")",
+    "| return os.RemoveAll(‹2›)"] := by rfl
 
 /-! ## Chains (`Remote.Chain`): the cache comes before the context, and the deadline is shared -/
 
-/-- inside `readRemoteNodeContent`, the statements that mention `ctx`, make or read the cache node,
-or return the cached bytes, in source order: the cache is read and — where no network is needed
+/-- inside `readRemoteNodeContent`, the statements that mention the parameter `ctx`, call
+`NewCacheNode`, call `Read` on the variable its result went to (‹0›), or return the variable
+*that* call's result went to (‹1›, the cached bytes) — selected by these data-flow facts, not by
+variable names — in source order: the cache is read and — where no network is needed
 (`--offline`, unexpired cache without `--download`) — returned **before `ctx` is looked at for the
 first time**, and the only use of `ctx` is handing it to `node.ReadContext`, whose failure falls
 back to the cached bytes.  A node whose read starts after the shared deadline therefore behaves
 like one whose fetch timed out (`Chain.net2`); an early `ctx.Err()` return would not. -/
 theorem remote_cacheBeforeCtx_ok : Gen.Remote.cacheBeforeCtx = [
-    "cache := NewCacheNode(node, r.tempDir)",
-    "cachedBytes, err := cache.Read()",
-    "| | return cachedBytes, nil",
-    "| | return cachedBytes, nil",
-    "downloadedBytes, err := node.ReadContext(ctx)",
-    "| | return cachedBytes, nil"] := by rfl
+    "‹0› := NewCacheNode(node, r.tempDir)",
+    "‹1›, ‹2› := ‹0›.Read()",
+    "| | return ‹1›, nil",
+    "| | return ‹1›, nil",
+    "‹3›, ‹2› := node.ReadContext(ctx)",
+    "| | return ‹1›, nil"] := by rfl
 
 /-- every use of `ctx` on the way from `Reader.Read` to the HTTP requests: the context `Read` was
 given is handed down unchanged — never re-assigned, never wrapped — through `include` (to
@@ -223,12 +235,12 @@ reads under node 1's deadline) -/
 theorem remote_ctxFlow_ok : Gen.Remote.ctxFlow = [
     "Reader.Read: r.include(ctx, node)",
     "Reader.include: r.readNode(ctx, node)",
-    "Reader.include: r.include(ctx, includeNode)",
+    "Reader.include: r.include(ctx, ‹0›)",
     "Reader.readNode: r.readNodeContent(ctx, node)",
-    "Reader.readNodeContent: r.readRemoteNodeContent(ctx, node)",
+    "Reader.readNodeContent: r.readRemoteNodeContent(ctx, ‹0›)",
     "Reader.readRemoteNodeContent: node.ReadContext(ctx)",
     "HTTPNode.ReadContext: RemoteExists(ctx, node.URL)",
-    "HTTPNode.ReadContext: req.WithContext(ctx)",
+    "HTTPNode.ReadContext: ‹0›.WithContext(ctx)",
     "HTTPNode.ReadContext: ctx.Err()",
     "RemoteExists: http.NewRequestWithContext(ctx, \"HEAD\", u.String(), nil)",
     "RemoteExists: ctx.Err()",
